@@ -100,7 +100,9 @@ def main(argv=None):
     xc_worst = 0.0
     kinds = {}
     z3tot = {}
+    iv_boxes = 0
     for r in sorted(results, key=lambda r: r["job"]):
+        iv_boxes += r.get("iv_boxes", 0) or 0
         if r["error"]:
             errors.append((r["job"], r["error"], r.get("trace", "")))
             continue
@@ -193,7 +195,8 @@ def main(argv=None):
                 trusted_base=TRUSTED_BASE,
                 back_ends=dict(ring_normaliser_and_evaluation=n_ok, z3_second_opinion_on_a_seeded_sample=dict(
                     confirmed_unsat=z3tot.get("unsat", 0), unknown_or_timeout=z3tot.get("unknown", 0), disagreements=z3tot.get("sat", 0),
-                    outside_exported_fragment=z3tot.get("skipped", 0), seconds=round(z3tot.get("secs", 0.0), 2))),
+                    outside_exported_fragment=z3tot.get("skipped", 0), seconds=round(z3tot.get("secs", 0.0), 2)),
+                    interval_branch_and_bound_boxes=iv_boxes, z3_sign_and_ast_vcs="see obligation_kinds: sign / concrete"),
                 obligation_kinds=kinds,
                 solver_seconds=round(solver_secs, 2),
                 jobs=len(results),
